@@ -637,9 +637,9 @@ func internalRoutes(out *sink, p pset, r *rand.Rand, full bool) {
 		} else if ki != 0 {
 			kinds = []string{"z=bound"}
 		}
-		loopKinds := []string{"z=bound", "r0=bound"}
+		loopKinds := []string{"z=bound", "r0=bound", "ones=omega"}
 		if full {
-			loopKinds = append(loopKinds, "z=bound-1", "r0=bound-1", "ones=omega", "ones=omega+1")
+			loopKinds = append(loopKinds, "z=bound-1", "r0=bound-1", "ones=omega+1")
 		} else if ki != 0 {
 			loopKinds = nil
 		}
